@@ -64,7 +64,12 @@ func ToByteReadSeeker(r io.Reader) ByteReadSeeker {
 		return brs
 	}
 	if rs, ok := r.(io.ReadSeeker); ok {
-		return &readSeekerPlusByte{ReadSeeker: rs}
+		// Having a Seek method does not make a reader seekable: an *os.File over a pipe
+		// (e.g. stdin) fails every Seek with ESPIPE. Probe once, and treat such a reader as
+		// the plain stream it is.
+		if _, err := rs.Seek(0, io.SeekCurrent); err == nil {
+			return &readSeekerPlusByte{ReadSeeker: rs}
+		}
 	}
 	return &discardingReadSeekerPlusByte{Reader: r}
 }
